@@ -22,14 +22,25 @@
 (*             (pinned tree: plain recursion -> RecursionError)            *)
 (*   fl.oct0   octal literals may contain the digit 0 (pinned tree:        *)
 (*             OCTAL_VALUE = ^[+-]?0[1-7]*$ -> "010" is rejected)          *)
+(* and of two more places (TRUE = the code as it is, FALSE = a realistic   *)
+(* wrong variant used as regression configuration):                        *)
+(*   fl.skip   the loop that skips ".." when looking for the right-hand    *)
+(*             neighbour of an open high end runs over ALL entries         *)
+(*             (FALSE: `while j < len(valuemap_list) - 1`, a ".." that is  *)
+(*             the last entry is taken for the neighbour)                  *)
+(*   fl.uncl   _tovalues_single tests `_b2v_unclaimed is not None`         *)
+(*             (FALSE: truthiness, an empty Values string of the ".."      *)
+(*             entry counts as "no unclaimed entry")                       *)
 (***************************************************************************)
 EXTENDS ValueMap
 
 Ok2(l, h) == [t |-> "ok", lo |-> l, hi |-> h, x |-> ""]
 Ex(n) == [t |-> "exc", lo |-> 0, hi |-> 0, x |-> n]
 
-Legacy == [trunc |-> FALSE, guard |-> FALSE, oct0 |-> FALSE]
-Fixed == [trunc |-> TRUE, guard |-> TRUE, oct0 |-> TRUE]
+Legacy == [trunc |-> FALSE, guard |-> FALSE, oct0 |-> FALSE,
+           skip |-> TRUE, uncl |-> TRUE]
+Fixed == [trunc |-> TRUE, guard |-> TRUE, oct0 |-> TRUE,
+          skip |-> TRUE, uncl |-> TRUE]
 
 (* _to_int *)
 ToInt(ent, n, fl) ==
@@ -39,10 +50,11 @@ ToInt(ent, n, fl) ==
 OpenLo(x) == x.k = "U" \/ (x.k = "R" /\ x.lopen)
 OpenHi(x) == x.k = "U" \/ (x.k = "R" /\ x.hopen)
 
-RECURSIVE PrevNonU(_, _)
-PrevNonU(m, j) == IF j = 0 \/ m[j].k # "U" THEN j ELSE PrevNonU(m, j - 1)
-RECURSIVE NextNonU(_, _)
-NextNonU(m, j) == IF j > Len(m) \/ m[j].k # "U" THEN j ELSE NextNonU(m, j + 1)
+(* PrevNonU / NextNonU: see ValueMap.tla.  The wrong variant of the skip   *)
+(* loop stops in front of the last entry                                   *)
+RECURSIVE NextNonUShort(_, _)
+NextNonUShort(m, j) ==
+  IF j >= Len(m) \/ m[j].k # "U" THEN j ELSE NextNonUShort(m, j + 1)
 
 (* _values_tuple(i, valuemap_list, values_list, cimtype); nv = len(values_list) *)
 RECURSIVE VT(_, _, _, _, _, _, _)
@@ -73,7 +85,8 @@ VT(i, m, nv, tmin, tmax, fuel, fl) ==
         THEN IF i = Len(m) THEN Ok2(tmax, tmax)
              ELSE LET q == VT(i + 1, m, nv, tmin, tmax, fuel - 1, fl) IN
                   IF q.t = "exc" THEN q ELSE Ok2(q.lo - 1, q.lo - 1)
-        ELSE LET j == NextNonU(m, i + 1) IN
+        ELSE LET j == IF fl.skip THEN NextNonU(m, i + 1)
+                      ELSE NextNonUShort(m, i + 1) IN
              IF j > Len(m) THEN Ok2(tmax, tmax)
              ELSE IF OpenLo(m[j]) THEN Ex("ModelError")
              ELSE LET q == VT(j, m, nv, tmin, tmax, fuel - 1, fl) IN
@@ -119,26 +132,34 @@ Build(i, m, vl, st, tmin, tmax, fl) ==
                              !.vb = PutVb(@, Bin(vl[i], "R", r.lo, r.hi))],
                   tmin, tmax, fl)
 
-(* _create_for_element *)
-Create(e, fl) ==
+(* _create_for_element, first part: values_list after the size             *)
+(* reconciliation (vl is the list the statements leave behind, also when   *)
+(* they raise)                                                             *)
+Recon(e, fl) ==
   LET m == EffMap(e)
       n == Len(m)
       nq == Len(e.vals) IN
-  IF ~e.hasvals THEN [t |-> "exc", st |-> Tables0, x |-> "ValueError"]
-  ELSE IF n # nq /\ ~e.hasdflt THEN [t |-> "exc", st |-> Tables0, x |-> "ModelError"]
-  ELSE LET vl == IF n > nq THEN e.vals \o [i \in 1..(n - nq) |-> e.dflt]
-                 ELSE IF n < nq
-                 THEN SubSeq(e.vals, 1, IF fl.trunc THEN n ELSE nq - n)
-                 ELSE e.vals
-       IN Build(1, m, vl, Tables0, e.tmin, e.tmax, fl)
+  IF ~e.hasvals THEN [t |-> "exc", x |-> "ValueError", vl |-> << >>]
+  ELSE IF n # nq /\ ~e.hasdflt THEN [t |-> "exc", x |-> "ModelError", vl |-> e.vals]
+  ELSE [t |-> "ok", x |-> "",
+        vl |-> IF n > nq THEN e.vals \o [i \in 1..(n - nq) |-> e.dflt]
+               ELSE IF n < nq
+               THEN SubSeq(e.vals, 1, IF fl.trunc THEN n ELSE nq - n)
+               ELSE e.vals]
+
+(* _create_for_element *)
+Create(e, fl) ==
+  LET r == Recon(e, fl) IN
+  IF r.t = "exc" THEN [t |-> "exc", st |-> Tables0, x |-> r.x]
+  ELSE Build(1, EffMap(e), r.vl, Tables0, e.tmin, e.tmax, fl)
 
 (* _tovalues_single *)
-ImplTovalues(st, v) ==
+ImplTovalues(st, v, fl) ==
   IF \E j \in DOMAIN st.sd : st.sd[j].n = v
   THEN Res(TRUE, st.sd[CHOOSE j \in DOMAIN st.sd : st.sd[j].n = v].s)
   ELSE LET hit == {j \in DOMAIN st.rl : st.rl[j].lo <= v /\ v <= st.rl[j].hi} IN
        IF hit # {} THEN Res(TRUE, st.rl[MinOf(hit)].s)
-       ELSE IF st.un.has THEN Res(TRUE, st.un.s)
+       ELSE IF st.un.has /\ (fl.uncl \/ st.un.s # "") THEN Res(TRUE, st.un.s)
        ELSE Res(FALSE, "ValueError")
 
 (* tobinary *)
@@ -155,7 +176,7 @@ ImplEvent(e, fl, Vseq, Q) ==
   THEN [e EXCEPT !.ctor = c.x, !.tv = << >>, !.tb = << >>, !.items = << >>]
   ELSE [e EXCEPT !.ctor = "ok",
                  !.tv = [j \in DOMAIN Vseq |->
-                           LET r == ImplTovalues(c.st, Vseq[j]) IN
+                           LET r == ImplTovalues(c.st, Vseq[j], fl) IN
                            [lo |-> Vseq[j], hi |-> Vseq[j], ok |-> r.ok, s |-> r.s]],
                  !.tb = [j \in DOMAIN Q |-> ImplTobinary(c.st, Q[j])],
                  !.items = c.st.vb]
@@ -176,7 +197,7 @@ Drift(e, fl) ==
             LET g == e.tv[j] IN
             \A v \in ({g.lo, g.hi} \cup
                       {b \in ImplBreak(c.st) : g.lo <= b /\ b <= g.hi}) :
-               ImplTovalues(c.st, v) = Res(g.ok, g.s))
+               ImplTovalues(c.st, v, fl) = Res(g.ok, g.s))
        \cup F("tobinary",
               \A j \in DOMAIN e.tb : SameBin(ImplTobinary(c.st, e.tb[j].s), e.tb[j]))
        \cup F("items",
